@@ -29,6 +29,9 @@ type CheckResult struct {
 	Model  string
 	Output string
 	Query  string // path to the single-check query when failed/unknown
+	replayDone bool
+	replayOK   bool
+	replayRec  map[string]interface{}
 }
 
 type Solver struct {
